@@ -73,6 +73,14 @@ def run(ctx):
             s["refeed"] = list(pm)
             sessions.append(("fresh", 0, s))
         groups.append({"base": base, "sessions": sessions})
+    # confidence assignment alone on heavily tied scores, random sources at their defaults: repeated in-process and fresh
+    for g in range(1 if ctx.quick else 3):
+        base = {"conf_only": True, "data_seed": int(ctx.seed * 100 + 50 + g), "n": 900, "folds": 3, "seed": 0, "workers": 1,
+                "proteins": True, "peps": ["qvality", "kde_nnls", "hist_nnls"][g % 3]}
+        sessions = [("inproc", 0, dict(base)), ("inproc-repeat", 0, dict(base)), ("inproc-repeat", 0, dict(base))]
+        sessions += [("fresh", hs, dict(base)) for hs in (1, 2)]
+        sessions.append(("fresh", 5, dict(base, workers=2)))
+        groups.append({"base": base, "sessions": sessions})
     ctx.phase("driving")
     traces = []
     for gi, G in enumerate(groups):
